@@ -27,6 +27,8 @@ def load_contracts(prop):
     files = sorted(glob.glob(os.path.join(HERE, 'contracts', 'c[0-9][0-9]_*.py')))
     common = sorted(glob.glob(os.path.join(HERE, 'contracts', 'common_*.py')))
     mods = []
+    # c04_cache holds the table of public Signal/AccSignal operations that other properties' "after a change" units re-use: first
+    files = sorted(files, key=lambda f: (0 if os.path.basename(f).startswith('c04_') else 1, f))
     for f in common + files:
         name = 'contracts_' + os.path.basename(f)[:-3]
         spec = importlib.util.spec_from_file_location(name, f)
